@@ -17,6 +17,12 @@ func doBind(sc *Collection, originalInvokeF *provider, originalInitF *provider, 
 	funcs := make([]*provider, 0, len(sc.contents)+5)
 	{
 		var err error
+		if originalInvokeF.fatal != nil {
+			return originalInvokeF.fatal
+		}
+		if originalInitF != nil && originalInitF.fatal != nil {
+			return originalInitF.fatal
+		}
 		invokeF, err = characterizeInitInvoke(originalInvokeF, charContext{inputsAreStatic: false})
 		if err != nil {
 			return err
